@@ -106,7 +106,9 @@ func (req *Request) parse(con *Connection) {
 
 	p := buf
 	key, value,tmp := "", "",""
-	for p != "" {
+	// the header section ends at the first empty line; whatever follows is the
+	// body and must not be searched for header delimiters.
+	for p != "" && !strings.HasPrefix(p, "\r\n") {
 		if key, tmp = match_until(p, ": ");key != "" {
 			p = tmp
 		}
